@@ -1,8 +1,12 @@
 """C39 — sequence validation updates the certificate state atomically (decided whole, by ownership).
 
 In validate_txs the caller's `&mut CertState` is (1) read exactly once, by the clone that initialises the working copy,
-(2) never lent to any callee, (3) written exactly once, with the working copy, at a point that is outside the loop and on no path
-with an error return, and (4) every validate_tx call receives `&mut` of the working copy, over metxs.iter().enumerate() in order.
+(2) never lent to any callee other than the write-back, (3) written exactly once, with the working copy, at a point that is
+outside every loop, on no path with an error exit, dominated by the head of the loop / the iterator consumer that applies
+validate_tx and with no application reachable after it, and (4) every validate_tx application (direct call or inside a closure
+of validate_txs) receives `&mut` of the working copy; for iterator-driven loops the chain over the sequence parameter carries no
+reordering/skipping adaptor.  The clauses are stated over loop heads, error exits and application points — not over one
+spelling of the loop — so that behaviour-preserving rewrites stay silent.
 Rust's aliasing rules make (2) sufficient for "no callee touches the caller's state"."""
 import re
 from pv.program import Program
@@ -40,82 +44,161 @@ def run(tier):
         res.ok("read-once", "R-FRAME", "the caller's state is read exactly once, by clone()")
     else:
         res.violation("read-once=>%d" % len(clone_calls), "the caller's CertState is cloned %d times (expected exactly one snapshot)" % len(clone_calls), where=where, rule="R-FRAME")
-    if lent:
-        res.violation("lent:" + "|".join(sorted({n.split("::")[-1] for _, _, n in lent})),
-                      "the caller's `&mut CertState` is passed to %s: a callee can modify it before the sequence is known to be valid" % sorted({n for _, _, n in lent}),
-                      where=where, rule="R-FRAME")
-    else:
-        res.ok("never-lent", "R-FRAME", "the caller's state is not an argument of any call other than the snapshot clone")
-
     # working copy local
     wc = None
     if clone_calls:
         d = clone_calls[0][1]["dest"]
         wc = pl_local(d)
-    # (3) writes through the parameter
-    writes = []
+    # (4a) application points: where validate_tx is applied to the sequence — a direct call in validate_txs, or the call that
+    # consumes a closure of validate_txs whose body calls validate_tx (try_for_each & co.)
+    vt = flow.calls_matching(f, r"^pallas_validate::phase1::validate_tx$")
+    app_points = []          # (block in f, description)
+    arg_ok = []
+    for bi, t in vt:
+        ok = False
+        for a_ in t["args"]:
+            ch = flow.origin_chain(f.sym_operand(a_))
+            ty = f.local_ty(pl_local(op_place(a_))) if op_place(a_) is not None and isinstance(op_place(a_), int) else ""
+            if ty.startswith("&mut pallas_validate::utils::CertState"):
+                ok = ch is not None and ch[0] == ("local", wc) and not ch[1]
+        arg_ok.append(ok)
+        app_points.append((bi, "call"))
+    consumers = []           # call terminators in f that take such a closure
+    for g in P.closure_children(f):
+        gv = flow.calls_matching(g, r"^pallas_validate::phase1::validate_tx$")
+        if not gv:
+            continue
+        aggs = [(bi, s) for bi, si, s in f.statements()
+                if s[0] == "a" and s[2]["k"] == "agg" and s[2].get("ak") == "closure" and s[2].get("def") == g.b.get("path", g.path).split("#")[0]]
+        if not aggs:
+            aggs = [(bi, s) for bi, si, s in f.statements()
+                    if s[0] == "a" and s[2]["k"] == "agg" and s[2].get("ak") == "closure" and g.path.startswith(s[2].get("def", "\0"))]
+        for gbi, gt in gv:
+            ok = False
+            for a_ in gt["args"]:
+                ch = flow.origin_chain(g.sym_operand(a_))
+                pl = op_place(a_)
+                ty = g.local_ty(pl_local(pl)) if pl is not None and isinstance(pl, int) else ""
+                if ty.startswith("&mut pallas_validate::utils::CertState") and ch is not None and ch[0] == ("param", 1) and len(ch[1]) == 1 and aggs:
+                    k = int(ch[1][0])
+                    flds = aggs[0][1][2]["fields"]
+                    if k < len(flds):
+                        up = flow.origin_chain(f.sym_operand(flds[k]))
+                        ok = up is not None and up[0] == ("local", wc) and not up[1]
+            arg_ok.append(ok)
+        for abi, astmt in aggs:
+            cl = pl_local(astmt[1])
+            for bi, t in f.calls():
+                if any(op_place(a_) is not None and pl_local(op_place(a_)) == cl for a_ in t["args"]):
+                    app_points.append((bi, "closure:" + flow.callee_name(t).split("::")[-1]))
+                    consumers.append(t)
+    if not arg_ok:
+        res.violation("anchor:validate_tx", "validate_txs no longer applies validate_tx (neither directly nor in one of its closures)", rule="anchor")
+    for ok in arg_ok:
+        if ok:
+            res.ok("validate_tx-gets-copy", "R-PROV", "validate_tx receives &mut of the working copy")
+        else:
+            res.violation("validate_tx-arg", "validate_tx does not receive `&mut` of the working copy as its certificate state", where=where, rule="R-PROV")
+
+    # (3) writes through the parameter: `*cert_state = x`, or the equivalent library forms
+    # clone_from(cert_state, &x) / mem::swap(cert_state, &mut x) / mem::replace(cert_state, x)
+    WRITE_FORMS = re.compile(r"::clone_from$|^core::mem::swap$|^core::mem::replace$|^std::mem::swap$|^std::mem::replace$")
+    form_lent = [(bi, t, n) for bi, t, n in lent if WRITE_FORMS.search(n)]
+    lent = [x for x in lent if not WRITE_FORMS.search(x[2])]
+    if lent:
+        res.violation("lent:" + "|".join(sorted({n.split("::")[-1] for _, _, n in lent})),
+                      "the caller's `&mut CertState` is passed to %s: a callee can modify it before the sequence is known to be valid" % sorted({n for _, _, n in lent}),
+                      where=where, rule="R-FRAME")
+    else:
+        res.ok("never-lent", "R-FRAME", "the caller's state is not an argument of any call other than the snapshot clone and the write-back")
+    writes = []              # (block, source symbolic value or None)
     for bi, si, s in f.statements():
         if s[0] == "a" and not isinstance(s[1], int) and pl_local(s[1]) == cparam:
-            writes.append((bi, si, s))
+            full = s[2]["k"] == "use" and [e[0] for e in pl_proj(s[1])] == ["deref"]
+            writes.append((bi, f.sym_operand(s[2]["x"]) if full else None))
         if s[0] == "a" and s[2]["k"] in ("ref", "rawptr") and s[2].get("mut") and pl_local(s[2]["p"]) == cparam and pl_proj(s[2]["p"]):
-            # re-borrow of *cert_state mutably
-            writes.append((bi, si, s))
-    full = [w for w in writes if w[2][2]["k"] == "use" and [e[0] for e in pl_proj(w[2][1])] == ["deref"]]
-    if len(writes) == 1 and len(full) == 1:
-        bi, si, s = full[0]
-        srcch = flow.origin_chain(f.sym_operand(s[2]["x"]))
+            # a mutable re-borrow of *cert_state: fine when it only feeds one of the write forms above
+            dst = pl_local(s[1])
+            feeds = [t for b2, t, n in form_lent if any(op_place(a_) is not None and pl_local(op_place(a_)) == dst for a_ in t["args"][:1])]
+            if not feeds:
+                writes.append((bi, None))
+    for bi, t, n in form_lent:
+        writes.append((bi, f.sym_operand(t["args"][1]) if len(t["args"]) > 1 else None))
+    if len(writes) == 1 and writes[0][1] is not None:
+        bi, src = writes[0]
+        srcch = flow.origin_chain(src)
         if wc is not None and srcch is not None and srcch[0] == ("local", wc) and not srcch[1]:
-            res.ok("write-once-from-copy", "R-PROV", "`*cert_state = <working copy>` is the only write through the parameter")
+            res.ok("write-once-from-copy", "R-PROV", "the single write through the parameter installs the working copy")
         else:
-            res.violation("write-source", "the caller's state is overwritten with %s, not with the working copy" % sym_str(f.sym_operand(s[2]["x"])), where=where, rule="R-PROV")
-        # position: outside any loop, no error return on any path through it
-        resid = [b for b, t in f.calls() if flow.callee_name(t).endswith("from_residual")]
+            res.violation("write-source", "the caller's state is overwritten with %s, not with the working copy" % sym_str(src), where=where, rule="R-PROV")
+        # position: outside any loop, and on no path with an error exit (a `?` residual or a constructed Err)
+        errs = {b for b, t in f.calls() if flow.callee_name(t).endswith("from_residual")}
+        errs |= {b for b, si, s2 in f.statements() if s2[0] == "a" and s2[2]["k"] == "agg" and s2[2].get("ak") == "adt"
+                 and s2[2].get("adt") == "core::result::Result" and s2[2].get("variant") == "Err"}
         in_loop = f.can_reach_strict(bi, bi)
-        after_err = any(f.can_reach(r, bi) for r in resid)
-        before_err = any(f.can_reach(bi, r) for r in resid)
+        after_err = any(f.can_reach(r, bi) for r in errs)
+        before_err = any(f.can_reach(bi, r) for r in errs)
         if in_loop:
             res.violation("write-in-loop", "the caller's state is written inside the per-transaction loop: a later failure leaves a partial update", where=where, rule="R-ORDER")
         elif after_err or before_err:
             res.violation("write-on-error-path", "the write to the caller's state shares a path with an error return", where=where, rule="R-ORDER")
         else:
-            res.ok("write-after-loop", "R-ORDER", "the write is outside the loop and on no path with an error return (%d `?` exits inspected)" % len(resid))
-        # all validate_tx calls dominate... the loop exit: the write must be reachable only after the iterator is exhausted
-        nexts = [b for b, t in f.calls() if flow.callee_name(t).endswith("Iterator::next")]
-        if nexts and all(flow.dominates(f, nb, bi) for nb in nexts):
-            res.ok("write-dominated-by-loop-head", "R-ORDER", "the write is dominated by the loop's next()")
-        else:
-            res.violation("write-not-after-loop", "the write to the caller's state is not dominated by the loop over the transactions", where=where, rule="R-ORDER")
+            res.ok("write-after-loop", "R-ORDER", "the write is outside the loop and on no path with an error exit (%d error exits inspected)" % len(errs))
+        # the write comes after every application of validate_tx: it is reachable only through the head of the loop that
+        # applies validate_tx (or through the call consuming the closure), and no application is reachable from it
+        bad = None
+        for ab, how in app_points:
+            if f.can_reach(bi, ab):
+                bad = "validate_tx can still be applied after the write-back"
+                break
+            if f.can_reach_strict(ab, ab):
+                loop = {x for x in f.live_blocks() if x == ab or (f.can_reach(ab, x) and f.can_reach(x, ab))}
+                heads = [x for x in loop if any(p_ not in loop for p_ in f.pred(x))]
+                if bi in loop or not heads or not all(flow.dominates(f, h, bi) for h in heads):
+                    bad = "the write-back can be reached without passing the head of the loop that applies validate_tx"
+                    break
+            elif not flow.dominates(f, ab, bi):
+                bad = "the write-back can be reached without passing the application of validate_tx"
+                break
+        if app_points and bad is None:
+            res.ok("write-dominated-by-loop-head", "R-ORDER", "the write is dominated by the head of the loop / the call that applies validate_tx (%s)" % ", ".join(sorted({h for _, h in app_points})))
+        elif app_points:
+            res.violation("write-not-after-loop", bad, where=where, rule="R-ORDER")
     else:
-        res.violation("write-once=>%d" % len(writes), "the caller's CertState is written/mutably re-borrowed at %d places (expected exactly one final assignment)" % len(writes), where=where, rule="R-FRAME")
+        res.violation("write-once=>%d" % len(writes), "the caller's CertState is written/mutably re-borrowed at %d places (expected exactly one final write-back of a whole value)" % len(writes), where=where, rule="R-FRAME")
 
-    # (4) validate_tx calls
-    vt = flow.calls_matching(f, r"^pallas_validate::phase1::validate_tx$")
-    if not vt:
-        res.violation("anchor:validate_tx", "validate_txs no longer calls validate_tx", rule="anchor")
-    for bi, t in vt:
-        ok = False
-        for a in t["args"]:
-            ch = flow.origin_chain(f.sym_operand(a))
-            ty = f.local_ty(pl_local(op_place(a))) if op_place(a) is not None and isinstance(op_place(a), int) else ""
-            if ty.startswith("&mut pallas_validate::utils::CertState"):
-                ok = ch is not None and ch[0] == ("local", wc) and not ch[1]
-        if ok:
-            res.ok("validate_tx-gets-copy", "R-PROV", "validate_tx receives &mut of the working copy")
-        else:
-            res.violation("validate_tx-arg", "validate_tx does not receive `&mut` of the working copy as its certificate state", where=where, rule="R-PROV")
-    # iteration order
-    it = [t for b, t in f.calls() if flow.callee_name(t).endswith("IntoIterator::into_iter")]
-    ok = False
-    for t in it:
-        s = f.sym_operand(t["args"][0])
-        names = [sub[1].split("::")[-1] for sub in sym_walk(s) if sub[0] == "call"]
-        if names[:2] == ["enumerate", "iter"] and not set(names) & {"rev", "skip", "step_by", "take", "filter"}:
-            ch = flow.origin_chain(s[2][0][2][0]) if s[0] == "call" and s[2] and s[2][0][0] == "call" and s[2][0][2] else None
-            ok = ch is not None and ch[0][0] == "param"
-    if ok:
-        res.ok("in-order", "R-PROV", "the loop runs over metxs.iter().enumerate() (no reordering/skipping adaptor)")
+    # (4b) iteration order.  Decided for iterator-driven forms (a `for` loop or an iterator consumer taking the closure): the
+    # iterator chain must be rooted at the `metxs` parameter; a reordering/skipping adaptor in it is a violation.  Other loop
+    # forms (index arithmetic) are value-dependent: the clause is reported as not decided, never as a violation.
+    REORDER = {"rev", "skip", "step_by", "take", "filter", "filter_map", "skip_while", "take_while", "map_while", "chunks", "rchunks",
+               "windows", "chunks_exact", "rchunks_exact", "rsplit", "split_first", "split_last", "last", "nth", "cycle", "chain", "flat_map", "flatten",
+               "scan", "fuse", "dedup", "sort", "sorted", "rev_iter"}
+    PRESERVE = {"iter", "into_iter", "enumerate", "zip", "copied", "cloned", "by_ref", "map", "inspect", "peekable", "as_ref", "as_slice", "deref", "borrow", "to_vec", "clone", "into", "from"}
+    chains = [f.sym_operand(t["args"][0]) for b_, t in f.calls() if flow.callee_name(t).endswith("::into_iter") and t["args"]]
+    chains += [f.sym_operand(t["args"][0]) for t in consumers if t["args"]]
+    verdict = None
+    for c in chains:
+        names = [sub[1].split("::")[-1].split("<")[0] for sub in sym_walk(c) if sub[0] == "call"]
+        roots = [sub for sub in sym_walk(c) if sub[0] == "param"]
+        if not roots:
+            continue                     # an iterator over something else (not the transaction sequence)
+        hit = sorted(set(names) & REORDER)
+        if hit:
+            verdict = ("bad", "the transactions are iterated through %s: not every transaction is applied in order" % "/".join(hit))
+            break
+        if set(names) <= PRESERVE and verdict is None:
+            verdict = ("ok", "the sequence parameter is iterated through %s (no reordering/skipping adaptor)" % (".".join(reversed(names)) or "into_iter"))
+    for t in consumers:
+        cn = flow.callee_name(t).split("::")[-1]
+        if cn not in ("try_for_each", "try_fold") and verdict and verdict[0] == "ok":
+            verdict = None               # the consumer may ignore errors or stop early in ways not modelled
+    if verdict and verdict[0] == "ok":
+        res.ok("in-order", "R-PROV", verdict[1])
+    elif verdict:
+        res.violation("iteration-order", verdict[1], where=where, rule="R-PROV")
     else:
-        res.violation("iteration-order", "validate_txs does not iterate metxs.iter().enumerate() directly", where=where, rule="R-PROV")
+        res.count("clauses not decided (loop form is value-dependent): iteration order")
+        res.notes.append("iteration-order clause not decided: validate_txs does not drive the loop with an iterator over the sequence parameter")
     res.sample({"function": f.path, "state_param": "_%d" % cparam, "working_copy": "_%s" % wc, "writes": len(writes), "validate_tx_calls": len(vt)})
     res.assumptions += ["safe Rust: a callee cannot reach the caller's CertState without being handed the reference (no unsafe in validate_txs)"]
     if f.b.get("unsafe"):
